@@ -265,6 +265,26 @@ class SetV(V):
         self.items = list(items)
 
 
+class DctL(V):
+    """A dict built from a (symbolic) list of (key, value) pairs in insertion order: lookup returns the value of the
+    LAST pair whose key equals the query (Python dict semantics for repeated keys)."""
+    __slots__ = ("keys", "vals")
+
+    def __init__(self, keys: "Lst", vals: "Lst"):
+        self.keys, self.vals = keys, vals
+
+
+class NDArr(V):
+    """A 1-D numpy array: length term + element function; `log` records stores during one loop iteration."""
+    __slots__ = ("n", "_at", "dtype", "log")
+
+    def __init__(self, n, at, dtype="float64", log=None):
+        self.n, self._at, self.dtype, self.log = n, at, dtype, log
+
+    def at(self, i):
+        return self._at(i)
+
+
 class SetL(V):
     """A set given by the list of its elements (possibly with repetitions): membership = occurs in the list."""
     __slots__ = ("lst",)
